@@ -2,7 +2,7 @@
 From Coq Require Import List ZArith Permutation.
 From Coq Require Import Sorted.
 From Herc Require Import Plan.Syntax Plan.Exec Plan.Graph Plan.Checker Plan.Spec Plan.GC Plan.Hibernate Plan.Lifecycle
-  Plan.LifecycleProofs Plan.GCProofs Plan.HibernateProofs Plan.LifecyclePlain.
+  Plan.LifecycleProofs Plan.GCProofs Plan.HibernateProofs Plan.LifecyclePlain Plan.RunLifecycle Plan.RunLifecycleSound.
 Import ListNotations.
 Local Open Scope nat_scope.
 
@@ -119,3 +119,79 @@ Theorem C04_lifecycle_plain : forall p : list action, lifecycle_ok p ->
   (forall b, Forall (fun a => ~ In b (creates a)) p -> Forall (fun a => ~ In b (items a)) p).
 Proof. exact lifecycle_plain. Qed.
 Print Assumptions C04_lifecycle_plain.
+
+(* ---------- the lifecycle at EXECUTION time (stream c04run: the real Pipeline.Run with recording items) ----------
+   [log] is the list of calls the clones of one deployed item received during one run (RunLifecycle.v [event]):
+   ERoot i (the deployed item), EFork s ts (s.Fork returned the clones ts), EConsume i c, EMerge i os (i.Merge(os)),
+   EHibernate i, EBoot i, EDispose i, EFinalize i.  The predicates are plain statements about a list of calls:
+     created_in l i     = some call of l created i (ERoot i, or i among the clones of an EFork);
+     hibernated_in l i  = l = l1 ++ EHibernate i :: l2 with no EBoot i in l2;
+     finalized_in l i   = EFinalize i is in l;
+     last_consumed l i c = l = l1 ++ EConsume i c :: l2 with no EConsume i _ in l2;
+     incorporated l i c = c was consumed by i, or inherited through the fork that created i, or received in a merge.
+   Whenever the oracle that ./check C04 runs on every call log accepts, then for EVERY call e of the log, with l1 the
+   calls before it:
+   - every instance the call uses (the receiver of Consume / Fork / Hibernate / Dispose / Finalize, the receiver and
+     the arguments of Merge) exists, is not hibernated and is not finalized: nothing is consumed, forked, merged,
+     finalized or hibernated AGAIN while hibernated, hence (C04_run_booted_before_use) between a Hibernate and the
+     next use of the instance there is a Boot;
+   - the instances a call creates are new and pairwise distinct (created at most once);
+   - Boot is only called on a hibernated instance; a merge joins pairwise distinct instances that all consumed the
+     same commit last; when Finalize is called no instance is hibernated and Finalize has not been called before;
+   and at the end of the run no instance is hibernated, exactly the lifecycle absent -> live <-> hibernated -> finalized;
+   some instance was finalized and, if the history has a single head ([single = true], n commits), that instance
+   has incorporated every commit 0..n-1.  (Deleting a branch is not a call: a disposed instance is one that receives
+   no later call.) *)
+Theorem C04_run_lifecycle_sound : forall (single : bool) (n : nat) (log : list event),
+  run_okb single n log = true ->
+  (forall l1 e l2, log = l1 ++ e :: l2 ->
+     (forall i, In i (ev_uses e) -> created_in l1 i /\ ~ hibernated_in l1 i /\ ~ finalized_in l1 i) /\
+     NoDup (ev_creates e) /\
+     (forall i, In i (ev_creates e) -> ~ created_in l1 i) /\
+     match e with
+     | EBoot i => created_in l1 i /\ hibernated_in l1 i /\ ~ finalized_in l1 i
+     | EMerge i os => NoDup (i :: os) /\ exists c, forall j, In j (i :: os) -> last_consumed l1 j c
+     | EFinalize _ => (forall j, ~ hibernated_in l1 j) /\ (forall j, ~ finalized_in l1 j)
+     | _ => True
+     end) /\
+  (forall j, ~ hibernated_in log j) /\
+  exists i, finalized_in log i /\ (single = true -> forall c, c < n -> incorporated log i c).
+Proof. exact run_lifecycle_sound. Qed.
+Print Assumptions C04_run_lifecycle_sound.
+
+Theorem C04_run_booted_before_use : forall (single : bool) (n : nat) (log : list event),
+  run_okb single n log = true ->
+  forall l1 i l2 e l3, log = l1 ++ EHibernate i :: l2 ++ e :: l3 -> In i (ev_uses e) -> In (EBoot i) l2.
+Proof. intros single n log H. exact (run_spec_booted_before_use single n log (run_lifecycle_sound single n log H)). Qed.
+Print Assumptions C04_run_booted_before_use.
+
+(* non-vacuity: the log of a run with a four-parent octopus merge under hibernation (instance 0 = the deployed item,
+   1 = the root clone, 2..4 = the forked branches; a boot action that covers the branches 0, 2, 3 precedes the merge)
+   is accepted; the same log with only the first branch of that boot action really booted (the seeded change C04-s2),
+   a double Hibernate, a Consume on a hibernated instance and a run that ends with a hibernated instance are rejected *)
+Definition octopus_log (boots : list event) : list event :=
+  [ERoot 0; EFork 0 [1]; EConsume 0 0; EFork 0 [2; 3; 4]; EHibernate 3; EHibernate 2; EHibernate 0;
+   EConsume 4 1; EHibernate 4; EBoot 3; EConsume 3 2; EHibernate 3; EBoot 2; EConsume 2 3; EHibernate 2;
+   EBoot 0; EConsume 0 4; EHibernate 0;
+   EBoot 2; EConsume 2 5; EHibernate 2; EBoot 3; EConsume 3 5; EHibernate 3; EBoot 4; EConsume 4 5; EConsume 0 5]
+  ++ boots ++
+  [EMerge 0 [2; 3; 4]; EConsume 0 6; EDispose 0; EFinalize 0].
+Example C04_run_oracle_accepts_octopus :
+  run_okb true 7 (octopus_log [EBoot 2; EBoot 3]) = true.
+Proof. vm_compute. reflexivity. Qed.
+Example C04_run_oracle_rejects_partial_boot :
+  run_okb true 7 (octopus_log [EBoot 2]) = false.
+Proof. vm_compute. reflexivity. Qed.
+Example C04_run_oracle_rejects_double_hibernate :
+  run_okb true 1 [ERoot 0; EFork 0 [1]; EConsume 0 0; EHibernate 0; EHibernate 0; EBoot 0; EFinalize 0] = false.
+Proof. vm_compute. reflexivity. Qed.
+Example C04_run_oracle_rejects_consume_while_hibernated :
+  run_okb true 2 [ERoot 0; EFork 0 [1]; EConsume 0 0; EHibernate 0; EConsume 0 1; EBoot 0; EFinalize 0] = false.
+Proof. vm_compute. reflexivity. Qed.
+Example C04_run_oracle_rejects_hibernated_at_the_end :
+  run_okb false 2 [ERoot 0; EFork 0 [1]; EConsume 0 0; EFork 0 [2]; EHibernate 2; EConsume 0 1; EFinalize 0] = false.
+Proof. vm_compute. reflexivity. Qed.
+Example C04_run_oracle_rejects_result_missing_a_commit :
+  run_okb true 3 [ERoot 0; EFork 0 [1]; EConsume 0 0; EFork 0 [2]; EConsume 2 1; EConsume 0 2; EFinalize 0] = false /\
+  run_okb false 3 [ERoot 0; EFork 0 [1]; EConsume 0 0; EFork 0 [2]; EConsume 2 1; EConsume 0 2; EFinalize 0] = true.
+Proof. vm_compute. split; reflexivity. Qed.
